@@ -80,6 +80,16 @@ def tasks(tier):
                    deadline=3, durs=[0, 1], max_unknown=None, strat_menu=[1],
                    breaker={"threshold": 1, "window": 8, "recovery": 2, "trip_on": ["T", "U", "P"]})
         out.append({"family": "records-slow-handler", "cfg": cfg, "entry": e, "bound": 2, "ncalls": 1})
+    # interruption classes that also derive from Exception; the task cancelled before it starts
+    for e, thr in itertools.product(WITH_RETRY + NO_RETRY, [1, 3]):
+        cfg = dict(M=2 if e in WITH_RETRY else 1, alphabet=["ok", "x:T", "hyb:cancel", "hyb:kbd", "hyb:exit"],
+                   max_unknown=None,
+                   breaker={"threshold": thr, "window": 8, "recovery": 2, "trip_on": ["T", "U", "P"]})
+        out.append({"family": "records-hybrid-cancel", "cfg": cfg, "entry": e, "bound": 0, "ncalls": 2})
+    for e in [x for x in WITH_RETRY + NO_RETRY if x.startswith("Async")]:
+        cfg = dict(M=2, alphabet=["ok", "x:T"], suspend=True, inject_start=True, max_unknown=None,
+                   breaker={"threshold": 1, "window": 8, "recovery": 2, "trip_on": ["T", "U", "P"]})
+        out.append({"family": "records-never-started", "cfg": cfg, "entry": e, "bound": 1, "ncalls": 2})
     # the final failure is a rejected None result
     for e, thr in itertools.product(WITH_RETRY, [1, 3]):
         cfg = dict(M=2, alphabet=["ok", "rn:T", "rn:P", "x:U", "r:T"], force_rc=True, max_unknown=None,
@@ -128,6 +138,13 @@ def _monitor_trace(trace, cfg):
                      and any(r[0] == "poll" and r[1] for r in call.pre))
         if pre_abort:
             continue  # never admitted: the pre-flight abort of a retry-less policy (see C07, F6b)
+        if any(r[0] == "susp" and r[1] == "not-started" for r in call.records):
+            # the coroutine was closed before its first step: it cannot have been admitted, and an
+            # admission without a record would be a leak
+            if allows and not records:
+                v.append(("c09.record-count", "a call that never started was admitted "
+                                              f"({allows[0][3]}) and made no breaker record"))
+            continue
         if len(allows) != 1:
             v.append(("c09.allow-count", f"allow() consulted {len(allows)} times for one call"))
             continue
